@@ -2058,7 +2058,10 @@ var c11fixedInputs = []string{"1 +", "(1", "a.", "a ? b", "[1,,2]", "{a:1,,}", "
 	"9223372036854775807", "9223372036854775808", "0x8000000000000000", "1e999", "0b11", "0o17", "017", "1__0", "a[", "a[:", "a[1", "a[1:",
 	"a[]", "a[:]", "a.b(", "a.1", "a.(b)", "a?.", "a ?. b . c", "a\n+\nb", "a +\n", "\"ü\" + ü", "{\"a\": 1}.a", "[1][0]", "(1).a", "f()()", "f().a()[1]",
 	"1 not\tin [1]", "1 not in[1]", "1 not in [1]", "1 not  in [1]", "not not a", "not in", "a in in", "! a", "!a", "!!a", "a ** -b", "a ** - b ** c",
-	"-a ** b", "not a ** b", "not a * b", "not a + b", "- a . b", "-a.b", "- a [ 1 ]", "+ - + a"}
+	"-a ** b", "not a ** b", "not a * b", "not a + b", "- a . b", "-a.b", "- a [ 1 ]", "+ - + a",
+	// word operators where a member NAME is expected (a name is an identifier token; the two-word operator is one operator token)
+	"a.not in", "a.not in (b)", "a?.not in", "a.not  in", "a.not in == 1", "a.not in.b", "a.not in [1]", "a.in (b)", "a.not (b)", "a.matches", "a.contains (b)", "a.and", "a?.or (1)",
+	"a.not in ? 1 : 2", "f(a.not in)", "[a.not in]", "{k: a.not in}", "all(a, {.not in})", "a.not\tin", "a . not in"}
 
 // ---------------------------------------------------------------- replay
 func c11Replay(arg string) {
@@ -2222,6 +2225,39 @@ func runC11() {
 	}
 	for _, s := range c11fixedInputs {
 		c.toCoq("fixed", s)
+	}
+	// the hand-written probes are also judged like the swept sequences: real parser against the reference grammar on the tokens
+	// the real lexer produces (acceptance and tree)
+	for _, text := range c11fixedInputs {
+		tree, err := c11Parse(text)
+		toks, lerr := c11Lex(text)
+		rep.Evaluations++
+		rep.hist("hand-written probe judged against the reference grammar")
+		if lerr != nil {
+			continue
+		}
+		ref, rok := c11RefParse(toks)
+		switch {
+		case err != nil && rok:
+			if !c13NotInSpacing(text) {
+				rep.fail(Failure{Key: "C11-seq-rejects", What: "the real parser rejects a probe of the reference grammar", Input: text, Want: dumpSexpr(ref), Got: "error: " + strings.SplitN(err.Error(), "\n", 2)[0], Replay: c11replayArg(text)})
+			}
+		case err == nil && !rok:
+			key := "C11-seq-accepts"
+			switch {
+			case strings.Contains(text, "?:"):
+				key = "C11-elvis-undocumented"
+			case strings.Contains(text, "{("):
+				key = "C11-open-paren-key"
+			case text == "-1 .a" || text == "-1 .x" || strings.HasPrefix(text, "- \"a\"") || text == "not a * 1 .b":
+				key = "C11-literal-postfix-after-unary"
+			}
+			rep.fail(Failure{Key: key, What: "the real parser accepts a probe that the reference grammar rejects", Input: text, Want: "reject", Got: dumpSexpr(tree.Node), Replay: c11replayArg(text)})
+		case err == nil && rok && dumpSexpr(ref) != dumpSexpr(tree.Node):
+			if !strings.Contains(text, "?.") {
+				rep.fail(Failure{Key: "C11-seq-tree", What: "real parser and reference parser build different trees for a probe", Input: text, Want: dumpSexpr(ref), Got: dumpSexpr(tree.Node), Replay: c11replayArg(text)})
+			}
+		}
 	}
 
 	// ---- (ii) token sequences
